@@ -9,7 +9,7 @@ from util import call, quiet
 REQUIRED_THEOREMS = ['Usid.C07.rows_exact', 'Usid.C07.eager_fixup_identity', 'Usid.C07.rejections_2d',
                      'Usid.C07.two_lists_refused', 'Usid.C07.slice2D_elements', 'Usid.C07.posSpecSlices_selected',
                      'Usid.C07.sliceND_elements']
-RULE = ('[also: numpy integers as scalar selectors, repeated indices inside lists, slice_dict=None, a list of pairs instead of a dictionary, 0-2 toggle_sorting calls before slicing, main dtypes f8/f4/i4/c16/compound; success flag and lazy/eager container type observed] generator datasets (any storage order) x slicing dictionaries with, per dimension, absent / each int / '
+RULE = ('[also: index lists / arrays with entries that are not whole numbers] [also: numpy integers as scalar selectors, repeated indices inside lists, slice_dict=None, a list of pairs instead of a dictionary, 0-2 toggle_sorting calls before slicing, main dtypes f8/f4/i4/c16/compound; success flag and lazy/eager container type observed] generator datasets (any storage order) x slicing dictionaries with, per dimension, absent / each int / '
         'contiguous and strided slices (negative bounds and steps) / non-empty index subsets as list, tuple or ndarray, '
         'ndim_form and lazy in {F,T}, file-order and sorted wrapper; >= 15 %% of the 2-D results forced square and '
         '>= 10 %% single row/column; a malformed stream (negative, out-of-range, unknown label, float/str selectors, '
@@ -39,7 +39,9 @@ def malformed(rng, size):
     return rng.choice([{'t': 'int', 'i': -1}, {'t': 'int', 'i': size}, {'t': 'int', 'i': size + 3},
                        {'t': 'list', 'l': [0, -1], 'as': 'list'}, {'t': 'list', 'l': [size], 'as': 'list'},
                        {'t': 'other', 'py': 'float'}, {'t': 'other', 'py': 'str'}, {'t': 'list', 'l': [], 'as': 'list'},
-                       {'t': 'slice', 'a': size, 'b': None, 's': None}])
+                       {'t': 'slice', 'a': size, 'b': None, 's': None},
+                       # index sequences whose entries are not whole numbers (below the size, not negative)
+                       {'t': 'other', 'py': 'fraclist'}, {'t': 'other', 'py': 'fraclist1'}, {'t': 'other', 'py': 'fracarray'}])
 
 
 def generate(seed, tier):
@@ -122,7 +124,7 @@ def _py_sel(v):
         return slice(v['a'], v['b'], v['s'])
     if v['t'] == 'list':
         return {'list': list, 'tuple': tuple, 'array': lambda l: np.array(l, dtype=np.int64)}[v.get('as', 'list')](v['l'])
-    return {'float': 1.5, 'str': 'a'}[v['py']]
+    return {'float': 1.5, 'str': 'a', 'fraclist': [0.5, 0], 'fraclist1': [0.5], 'fracarray': np.array([0.0, 0.5])}[v['py']]
 
 
 def _tok(a):
